@@ -151,6 +151,7 @@ def Frame.es : Frame → Bool
 /-- result of one `Write` call -/
 inductive WRes
   | n (k : Nat) | notAllowed | overLength
+  | shortWrite          -- io.ErrShortWrite (sticky error of the bufio.Writer, HEAD only)
   deriving Repr, BEq, DecidableEq
 
 structure Env where
@@ -172,6 +173,8 @@ structure St where
   out : List Frame := []       -- frames written for the stream, in order
   wres : List WRes := []       -- results of the Write calls, in order
   acc : List Nat := []         -- ghost: bytes of the Write calls that returned success
+  bwErr : Bool := false        -- the bufio.Writer's sticky error: for a HEAD request the header-sending writeChunk call
+                               -- returns 0, which bufio.Writer.Flush turns into io.ErrShortWrite
 
 def bufSize : Nat := 4096
 
@@ -265,6 +268,21 @@ def bwWrite (env : Env) (s : St) (p : List Nat) : St :=
     let p' := p.drop n
     if p'.length ≤ bufSize then { s1 with buf := p' } else writeChunk env s1 p'
 
+/-- `bufio.Writer.Write(p)` has to flush a non-empty buffer first, and that flush is the call that sends the HEADERS of a
+    HEAD response (writeChunk then returns 0 bytes written) -/
+def bwShort (s : St) (p : List Nat) : Bool :=
+  s.isHead && !s.sentHeader && !s.buf.isEmpty && decide (p.length > bufSize - s.buf.length)
+
+/-- the tail of `responseWriter.write` for a HEAD request: the bufio.Writer's sticky io.ErrShortWrite -/
+def rwWriteHead (env : Env) (s : St) (p : List Nat) : St :=
+  if s.bwErr then { s with wres := s.wres ++ [WRes.shortWrite] }      -- sticky: bufio returns its error at once
+  else if bwShort s p then
+    let s1 := bwWrite env s p
+    { s1 with bwErr := true, wres := s1.wres ++ [WRes.shortWrite] }
+  else
+    let s1 := bwWrite env s p
+    { s1 with wres := s1.wres ++ [WRes.n p.length], acc := s1.acc ++ p }
+
 /-- `responseWriter.write` -/
 def rwWrite (env : Env) (s0 : St) (p : List Nat) : St :=
   let s := if !s0.wroteHeader then writeHeader s0 200 else s0
@@ -272,13 +290,24 @@ def rwWrite (env : Env) (s0 : St) (p : List Nat) : St :=
   else
     let s := { s with wroteBytes := s.wroteBytes + p.length }
     if s.sentContentLen != 0 && s.wroteBytes > s.sentContentLen then { s with wres := s.wres ++ [WRes.overLength] }
+    else if s.isHead then rwWriteHead env s p
     else
       let s := bwWrite env s p
       { s with wres := s.wres ++ [WRes.n p.length], acc := s.acc ++ p }
 
-/-- `responseWriter.Flush` -/
-def rwFlush (env : Env) (s : St) : St :=
+def rwFlushGet (env : Env) (s : St) : St :=
   if s.buf.length > 0 then writeChunk env { s with buf := [] } s.buf else writeChunk env s []
+
+def rwFlushHead (env : Env) (s : St) : St :=
+  if s.buf.length > 0 then
+    (if s.bwErr then s
+     else if !s.sentHeader then { writeChunk env { s with buf := [] } s.buf with bwErr := true }
+     else writeChunk env { s with buf := [] } s.buf)
+  else writeChunk env s []
+
+/-- `responseWriter.Flush` (returns nil whatever happens) -/
+def rwFlush (env : Env) (s : St) : St :=
+  if s.isHead then rwFlushHead env s else rwFlushGet env s
 
 inductive Act
   | add (k v : Str)        -- w.Header()[k] = append(w.Header()[k], v)
